@@ -395,6 +395,7 @@ func (s *BlockSpec) decode(content *hcl.BodyContent, blockLabels []blockLabel, c
 	}
 	val, _, childDiags := decode(childBlock.Body, labelsForBlock(childBlock), ctx, s.Nested, false)
 	diags = append(diags, childDiags...)
+	val = prepareBodyVal(val, childBlock.Body)
 	return val, diags
 }
 
